@@ -307,47 +307,7 @@ pub fn view(vm: &Vm, m: ActorID) -> Option<MinerView> {
         dl.partitions_amt(store)
             .unwrap()
             .for_each(|_, p| {
-                let mut queue = BTreeMap::new();
-                ExpirationQueue::new(store, &p.expirations_epochs, quant)
-                    .unwrap()
-                    .amt
-                    .for_each(|e, s| {
-                        queue.insert(
-                            e as i64,
-                            QEntry {
-                                on_time: bf_set(&s.on_time_sectors),
-                                early: bf_set(&s.early_sectors),
-                                on_time_pledge: s.on_time_pledge.clone(),
-                                active_power: pp(&s.active_power),
-                                faulty_power: pp(&s.faulty_power),
-                                fee_deduction: s.fee_deduction.clone(),
-                            },
-                        );
-                        Ok(())
-                    })
-                    .unwrap();
-                let mut early = BTreeMap::new();
-                BitFieldQueue::new(store, &p.early_terminated, NO_QUANTIZATION)
-                    .unwrap()
-                    .amt
-                    .for_each(|e, s| {
-                        early.insert(e as i64, bf_set(s));
-                        Ok(())
-                    })
-                    .unwrap();
-                parts.push(PartView {
-                    sectors: bf_set(&p.sectors),
-                    unproven: bf_set(&p.unproven),
-                    faults: bf_set(&p.faults),
-                    recoveries: bf_set(&p.recoveries),
-                    terminated: bf_set(&p.terminated),
-                    live_power: pp(&p.live_power),
-                    unproven_power: pp(&p.unproven_power),
-                    faulty_power: pp(&p.faulty_power),
-                    recovering_power: pp(&p.recovering_power),
-                    queue,
-                    early_terminated: early,
-                });
+                parts.push(part_view(store, p, quant));
                 Ok(())
             })
             .unwrap();
@@ -479,4 +439,49 @@ pub fn prove_commit3(vm: &Vm, by: ActorID, m: ActorID, numbers: &[u64], bad: boo
 /// Earliest expiration a pre-commit may declare at `now` under `policy`.
 pub fn min_precommit_expiration(policy: &Policy, now: ChainEpoch) -> ChainEpoch {
     now + fil_actor_miner::max_prove_commit_duration(policy, SEAL_PROOF).unwrap() + policy.min_sector_expiration
+}
+
+/// Decode one partition (bit-fields, memos, expiration and early-termination queues).
+pub fn part_view(store: &mcvm::Store, p: &fil_actor_miner::Partition, quant: fil_actor_miner::QuantSpec) -> PartView {
+    let mut queue = BTreeMap::new();
+    ExpirationQueue::new(store, &p.expirations_epochs, quant)
+        .unwrap()
+        .amt
+        .for_each(|e, s| {
+            queue.insert(
+                e as i64,
+                QEntry {
+                    on_time: bf_set(&s.on_time_sectors),
+                    early: bf_set(&s.early_sectors),
+                    on_time_pledge: s.on_time_pledge.clone(),
+                    active_power: pp(&s.active_power),
+                    faulty_power: pp(&s.faulty_power),
+                    fee_deduction: s.fee_deduction.clone(),
+                },
+            );
+            Ok(())
+        })
+        .unwrap();
+    let mut early = BTreeMap::new();
+    BitFieldQueue::new(store, &p.early_terminated, NO_QUANTIZATION)
+        .unwrap()
+        .amt
+        .for_each(|e, s| {
+            early.insert(e as i64, bf_set(s));
+            Ok(())
+        })
+        .unwrap();
+    PartView {
+        sectors: bf_set(&p.sectors),
+        unproven: bf_set(&p.unproven),
+        faults: bf_set(&p.faults),
+        recoveries: bf_set(&p.recoveries),
+        terminated: bf_set(&p.terminated),
+        live_power: pp(&p.live_power),
+        unproven_power: pp(&p.unproven_power),
+        faulty_power: pp(&p.faulty_power),
+        recovering_power: pp(&p.recovering_power),
+        queue,
+        early_terminated: early,
+    }
 }
